@@ -188,6 +188,39 @@ func init() {
 				})
 			})
 		}
+		// size families: wide fan-out (files and directories mixed), deep chains, many roots
+		for size := 1; size <= 40 && !c.Expired(); size++ {
+			if !c.Take() {
+				continue
+			}
+			var dw, dc, dr []int
+			var nw, nc, nr []string
+			dw, nw = append(dw, 1), append(nw, "wide")
+			for i := 0; i < size; i++ {
+				dw = append(dw, 2)
+				if i%3 == 1 {
+					nw = append(nw, fmt.Sprintf("f%02d.go", i))
+				} else {
+					nw = append(nw, fmt.Sprintf("d%02d", i))
+				}
+				dc = append(dc, i+1)
+				nc = append(nc, fmt.Sprintf("n%02d", i))
+				dr = append(dr, 1, 2)
+				nr = append(nr, fmt.Sprintf("root%02d", i), "k.go")
+			}
+			dc = append(dc, size+1)
+			nc = append(nc, "leaf.go")
+			c.StateN(3)
+			c.Inc("size_family_cases")
+			for _, ex := range [][]string{nil, {".go"}} {
+				c06Case(c, c06Replay{Kind: "c06", Depth: dw, Names: nw, Exts: ex, Route: "md", Target: "empty"})
+				c06Case(c, c06Replay{Kind: "c06", Depth: dw, Names: nw, Exts: ex, Route: "root", Target: "empty"})
+				c06Case(c, c06Replay{Kind: "c06", Depth: dc, Names: nc, Exts: ex, Route: "md", Target: "missing"})
+				c06Case(c, c06Replay{Kind: "c06", Depth: dr, Names: nr, Exts: ex, Route: "md", Target: "empty"})
+				// the last root exists already: nothing at all may be created
+				c06Case(c, c06Replay{Kind: "c06", Depth: dr, Names: nr, Exts: ex, Route: "md", Target: "empty", Pre: map[string]byte{fmt.Sprintf("root%02d", size-1): 'd'}})
+			}
+		}
 		// OS refusals on the real file system: over-long name, target below a regular file
 		for _, route := range []string{"md", "root"} {
 			if !c.Take() {
